@@ -12,12 +12,14 @@ import (
 	"fmt"
 	"math/big"
 	"os"
+	"strconv"
 	"strings"
 
 	"verifharness/hlib"
 
 	"github.com/oasisprotocol/oasis-core/go/common/quantity"
 	stakingState "github.com/oasisprotocol/oasis-core/go/consensus/cometbft/apps/staking/state"
+	governance "github.com/oasisprotocol/oasis-core/go/governance/api"
 	staking "github.com/oasisprotocol/oasis-core/go/staking/api"
 )
 
@@ -50,7 +52,7 @@ func errKind(err error) string {
 }
 
 // arity is the number of input tokens per op (anything after that in a replay line is ignored).
-var arity = map[string]int{"dep": 6, "wd": 6, "sfs": 4, "sp": 6, "se": 7, "com": 3,
+var arity = map[string]int{"gclose": 6, "dep": 6, "wd": 6, "sfs": 4, "sp": 6, "se": 7, "com": 3,
 	"hnew": 5, "hdep": 3, "hwd": 3, "hrew": 2, "hsl": 2, "hend": 1}
 
 // hist is the implementation-side state of a history: a real SharePool and real quantities.
@@ -148,6 +150,25 @@ func runImpl(ops []string) (lines []string, panicked string) {
 					line = fmt.Sprintf("%s err %s", in, errKind(err))
 				} else {
 					line = fmt.Sprintf("%s ok %s %s", in, c, r)
+				}
+			case "gclose":
+				// the real exported Proposal.CloseProposal on an active proposal with initialised results
+				p := &governance.Proposal{State: governance.StateActive, Results: map[governance.Vote]quantity.Quantity{}}
+				for i, v := range []governance.Vote{governance.VoteYes, governance.VoteNo, governance.VoteAbstain} {
+					if x := q(w[1+i]); !x.IsZero() || i == 0 {
+						p.Results[v] = *x
+					}
+				}
+				thr, _ := strconv.Atoi(w[5])
+				switch err := p.CloseProposal(*q(w[4]), uint8(thr)); {
+				case err != nil:
+					line = in + " err"
+				case p.State == governance.StatePassed:
+					line = in + " passed"
+				case p.State == governance.StateRejected:
+					line = in + " rejected"
+				default:
+					line = in + " other"
 				}
 			case "hnew":
 				h = &hist{p: staking.SharePool{Balance: *q(w[1]), TotalShares: *q(w[2])}, mine: *q(w[3]), rest: *q(w[4])}
@@ -417,6 +438,19 @@ func genStateless(r *hlib.Rng, res *hlib.Result) string {
 		}
 		res.Count("op:se")
 		return fmt.Sprintf("se %s %s %s %s %s %s", b, ts, bd, td, genQ(r), amount)
+	case k < 96:
+		// governance CloseProposal: votes around / above the total voting stake, zero total, thresholds
+		total := genQ(r)
+		y, n, a := upTo(r, total), genQ(r), genQ(r)
+		if r.Chance(2, 3) {
+			n = upTo(r, new(big.Int).Sub(total, y))
+			a = upTo(r, new(big.Int).Sub(new(big.Int).Sub(total, y), n))
+		}
+		if r.Chance(1, 8) {
+			total = big.NewInt(0)
+		}
+		res.Count("op:gclose")
+		return fmt.Sprintf("gclose %s %s %s %s %d", y, n, a, total, r.Intn(101))
 	default:
 		rate := big.NewInt(int64(r.Intn(100001)))
 		if r.Chance(1, 8) {
@@ -516,8 +550,11 @@ func classify(lines []string, res *hlib.Result, seen map[string]bool) {
 					res.Count("pool:no-shares")
 				}
 			}
-		case "se", "sp", "com":
+		case "se", "sp", "com", "gclose":
 			nontrivial = true
+			if w[0] == "gclose" {
+				res.Count("res:gclose:" + w[len(w)-1])
+			}
 		case "hend":
 			if w[len(w)-1] != "0" {
 				res.Count("history:with-env-gain")
